@@ -41,10 +41,11 @@ type sconfig struct {
 	afterLogin   bool // STARTTLS issued after a (plaintext, InsecureAuth) login
 	sasl         bool // the backend session implements its own SASL mechanisms
 	authCmd      bool // the plaintext credential attempt uses AUTHENTICATE instead of LOGIN
+	otherMech    bool // ... with a mechanism other than PLAIN
 }
 
 func (c sconfig) String() string {
-	return fmt.Sprintf("TLSConfig=%v InsecureAuth=%v afterLogin=%v saslSession=%v authCmd=%v", c.tlsConfig, c.insecureAuth, c.afterLogin, c.sasl, c.authCmd)
+	return fmt.Sprintf("TLSConfig=%v InsecureAuth=%v afterLogin=%v saslSession=%v authCmd=%v otherMech=%v", c.tlsConfig, c.insecureAuth, c.afterLogin, c.sasl, c.authCmd, c.otherMech)
 }
 
 // waitConsumed waits until the server has read everything written so far and
@@ -100,12 +101,21 @@ func serverCase(t fataler, cfg sconfig, suffix string, cuts []int, handshake boo
 		cmd := "LOGIN plainuser plainpass"
 		if cfg.authCmd {
 			cmd = "AUTHENTICATE PLAIN AHBsYWludXNlcgBwbGFpbnBhc3M="
+			if cfg.otherMech {
+				// any other mechanism is a credential exchange as well
+				cmd = "AUTHENTICATE XOAUTH2 AHBsYWludXNlcgBwbGFpbnBhc3M="
+			}
 		}
 		_, st, err := raw.Cmd("l0", cmd)
 		if err != nil {
 			fail("pre-login: %v", err)
 		}
-		if cfg.insecureAuth {
+		if cfg.insecureAuth && cfg.authCmd && cfg.otherMech && !cfg.sasl {
+			// the built-in fallback only knows PLAIN: refused, nobody is logged in
+			if st.Status == "OK" {
+				fail("AUTHENTICATE XOAUTH2 accepted by a session without SASL support")
+			}
+		} else if cfg.insecureAuth {
 			if st.Status != "OK" {
 				fail("plaintext LOGIN refused although InsecureAuth is set: %s", st.Text)
 			}
@@ -243,6 +253,7 @@ func TestPropServerBoundary(t *testing.T) {
 			afterLogin:   rapid.IntRange(0, 3).Draw(t, "afterLogin") == 2,
 			sasl:         rapid.Bool().Draw(t, "saslSession"),
 			authCmd:      rapid.Bool().Draw(t, "authCmd"),
+			otherMech:    rapid.Bool().Draw(t, "otherMech"),
 		}
 		suffix := rapid.SampledFrom(suffixes).Draw(t, "suffix")
 		total := len("x STARTTLS\r\n") + len(suffix)
@@ -515,7 +526,8 @@ func TestPropClientBoundary(t *testing.T) {
 
 func TestReplayScenarios(t *testing.T) {
 	for _, cfg := range []sconfig{{tlsConfig: true}, {tlsConfig: true, insecureAuth: true}, {}, {insecureAuth: true}, {tlsConfig: true, insecureAuth: true, afterLogin: true}, {tlsConfig: true, afterLogin: true},
-		{tlsConfig: true, afterLogin: true, sasl: true, authCmd: true}, {afterLogin: true, sasl: true, authCmd: true}, {tlsConfig: true, insecureAuth: true, afterLogin: true, sasl: true, authCmd: true}} {
+		{tlsConfig: true, afterLogin: true, sasl: true, authCmd: true}, {afterLogin: true, sasl: true, authCmd: true}, {tlsConfig: true, insecureAuth: true, afterLogin: true, sasl: true, authCmd: true},
+		{afterLogin: true, sasl: true, authCmd: true, otherMech: true}, {tlsConfig: true, afterLogin: true, sasl: true, authCmd: true, otherMech: true}, {insecureAuth: true, afterLogin: true, authCmd: true, otherMech: true}} {
 		for _, sfx := range []string{"", "y LOGIN injuser injpass\r\n"} {
 			for _, hs := range []bool{true, false} {
 				serverCase(t, cfg, sfx, nil, hs)
